@@ -7877,6 +7877,12 @@ fn read_filesystem_segments(
     let mut any_torn_tail = false;
     for path in segment_paths(root)? {
         let (frames, commits, torn_tail) = read_segment_file(&path)?;
+        // A torn tail is what an interrupted append leaves behind, so it must be
+        // the end of the log: records in a later segment after a torn tail mean
+        // the earlier segment was damaged, not interrupted.
+        if any_torn_tail && (!frames.is_empty() || !commits.is_empty() || torn_tail) {
+            return Err(WalStoreError::SegmentRecordDigestMismatch);
+        }
         all_frames.extend(frames);
         all_commits.extend(commits);
         any_torn_tail |= torn_tail;
